@@ -61,7 +61,18 @@ func (p *Prog) LoadTemplates(glob string, funcMapFn *Fn) (*TemplateSet, error) {
 	ts := &TemplateSet{Prog: p, Trees: map[string]*parse.Tree{}, FileOf: map[string]string{}, Funcs: map[string]*types.Signature{},
 		FuncLits: map[string]*ast.FuncLit{}, FuncFn: funcMapFn, UsedFields: map[*types.Var]bool{}, UsedMethods: map[*types.Func]bool{},
 		checked: map[string]string{}, DictFunc: "dict", CallSites: map[string][]TplCall{}}
+	// the FuncMap literals of the function that renders, then those of the other functions of its package (the templates
+	// parsed once by a helper, the stateful functions bound again per render): a name bound in the rendering function wins
+	var fmFns []*Fn
 	if funcMapFn != nil {
+		fmFns = append(fmFns, funcMapFn)
+		for _, o := range p.FuncsIn(strings.TrimPrefix(funcMapFn.Pkg.PkgPath, Module+"/")) {
+			if o != funcMapFn && o.Body != nil {
+				fmFns = append(fmFns, o)
+			}
+		}
+	}
+	for _, funcMapFn := range fmFns {
 		ast.Inspect(funcMapFn.Body, func(n ast.Node) bool {
 			cl, ok := n.(*ast.CompositeLit)
 			if !ok {
@@ -79,6 +90,9 @@ func (p *Prog) LoadTemplates(glob string, funcMapFn *Fn) (*TemplateSet, error) {
 				name := ""
 				if c := funcMapFn.ConstVal(kv.Key); c != nil {
 					name = strings.Trim(c.ExactString(), `"`)
+				}
+				if _, bound := ts.Funcs[name]; bound {
+					continue
 				}
 				if sig, ok := funcMapFn.Info().TypeOf(kv.Value).(*types.Signature); ok && name != "" {
 					ts.Funcs[name] = sig
